@@ -21,6 +21,9 @@ type application struct {
 	state   int32
 	stopped chan struct{}
 	reason  error
+	// 1 while start() is spawning the members and running the Start callback:
+	// the run is not finalised by a terminating member meanwhile (see start)
+	starting int32
 }
 
 func (a *application) start(mode gen.ApplicationMode, options gen.ApplicationOptionsExtra) error {
@@ -39,6 +42,13 @@ func (a *application) start(mode gen.ApplicationMode, options gen.ApplicationOpt
 	// loop below is over: the mode and the stopped channel of this run must exist by then
 	a.mode = mode
 	a.stopped = make(chan struct{})
+	// members may terminate (by themselves, or because of a stop request) while the
+	// others are still being started: the group is then empty for a moment although
+	// the run is not over. A terminating member must not finalise the run (state
+	// 'loaded', Terminate callback) until start is through - start was spawning the
+	// remaining members, ran the Start callback after the Terminate callback and
+	// returned nil for a 'loaded' application with live members
+	atomic.StoreInt32(&a.starting, 1)
 
 	// build app env
 	appEnv := make(map[gen.Env]any)
@@ -70,7 +80,14 @@ func (a *application) start(mode gen.ApplicationMode, options gen.ApplicationOpt
 		opts.Args = item.Args
 
 		lib.VerifPoint("app.start.spawn", a)
-		pid, err := a.node.spawn(item.Factory, opts)
+		pid, err := a.node.spawnMember(item.Factory, opts, func(pid gen.PID) {
+			// the process can run (and terminate) as soon as it is registered in the
+			// node: its pid must be in the group by then. Stored after spawn returned,
+			// a.terminate of an early terminated member did not find it and the dead
+			// pid stayed in the group forever (the application never stopped)
+			lib.VerifPoint("app.start.store", a)
+			a.group.Store(pid, true)
+		})
 		if err != nil {
 			// Kill unregisters a sleeping process synchronously, which
 			// calls a.terminate and takes the write lock of a.group:
@@ -80,17 +97,30 @@ func (a *application) start(mode gen.ApplicationMode, options gen.ApplicationOpt
 			}
 			lib.VerifPoint("app.start.rollback", a)
 			atomic.StoreInt32(&a.state, int32(gen.ApplicationStateLoaded))
+			atomic.StoreInt32(&a.starting, 0)
 			return err
 		}
 
-		lib.VerifPoint("app.start.store", a)
-		a.group.Store(pid, true)
+		if atomic.LoadInt32(&a.state) != int32(gen.ApplicationStateRunning) {
+			// the application is being stopped already (a stop request, or the mode
+			// rule fired on a terminated member): whoever switched the state may have
+			// told the members before this one was in the group
+			a.node.SendExit(pid, gen.TerminateReasonShutdown)
+		}
 	}
 
 	a.node.log.Info("application %s (%s) started", a.spec.Name, a.mode)
 	a.parent = options.CorePID.Node
 
 	a.started = time.Now().Unix()
+
+	defer func() {
+		// start is through: if every member has terminated meanwhile the run ends here
+		atomic.StoreInt32(&a.starting, 0)
+		if a.group.Len() == 0 {
+			a.finalise()
+		}
+	}()
 
 	if lib.Recover() {
 		defer func() {
@@ -220,12 +250,23 @@ func (a *application) terminate(pid gen.PID, reason error) {
 		// do nothing
 	}
 
+	if atomic.LoadInt32(&a.starting) == 1 {
+		// the members are still being started: start ends the run when it is through.
+		// (Checked before the group: once the flag is down the group does not grow)
+		return
+	}
+
 	lib.VerifPoint("app.term.len", a)
 	if a.group.Len() > 0 {
 		// waiting for the last application member to be terminated
 		return
 	}
 
+	a.finalise()
+}
+
+// finalise ends the run: no member is left
+func (a *application) finalise() {
 	lib.VerifPoint("app.term.default", a)
 	if a.reason == nil {
 		a.reason = gen.TerminateReasonNormal
